@@ -508,7 +508,7 @@ func (p *Program) holdsAtOrOnAllEdges(b *ssa.BasicBlock, pred func([]Fact) bool)
 		if len(b.Preds) == 0 || depth <= 0 {
 			return false
 		}
-		feasible := p.pfFeasibleEdges(b, known)
+		feasible := p.c19FeasibleEdges(b, known)
 		n := 0
 		for i, pr := range b.Preds {
 			if i < len(feasible) && !feasible[i] {
@@ -1121,21 +1121,18 @@ func c19CheckPanicAddObjects(c *Ctx, o *Obligation, fn *ssa.Function, site ssa.I
 				return
 			}
 			appends++
-			fs := p.FactsAt(cl.Block())
-			validated := false
-			for _, pc := range callsIn(prod) {
-				pcall, isCall := pc.Instr.(*ssa.Call)
-				if !isCall || staticCallee(pc.Common) != parser || len(pc.Common.Args) < 1 {
-					continue
-				}
-				if pc.Common.Args[0] == ld.X && p.errOfCallIsNil(fs, pcall) {
-					validated = true
-					o.Note("object appended at " + p.IPos(cl.Instr) + " only under err==nil of " + parser.Name() + " at " + p.IPos(pcall))
-				}
-			}
-			if !validated {
-				o.Fail("parseObjects admits an object at %s without %s having returned a nil error for it: AddObjects would panic on it", p.IPos(cl.Instr), shortFuncID(parser))
+			a, isLocal := ld.X.(*ssa.Alloc)
+			if !isLocal {
+				o.Unknown("appended object at %s is not a local variable", p.IPos(cl.Instr))
 				return
+			}
+			v := &c19Validation{p: p, parser: parser}
+			if !v.local(a, ld, p.FactsAt(cl.Block()), 0) {
+				o.Fail("parseObjects admits an object at %s without %s having returned a nil error for it: AddObjects would panic on it%s", p.IPos(cl.Instr), shortFuncID(parser), v.whyNot())
+				return
+			}
+			for _, n := range v.notes {
+				o.Note("object appended at " + p.IPos(cl.Instr) + " only under " + n)
 			}
 		}
 	}
@@ -1144,6 +1141,226 @@ func c19CheckPanicAddObjects(c *Ctx, o *Obligation, fn *ssa.Function, site ssa.I
 		return
 	}
 	o.OK()
+}
+
+// c19FeasibleEdges: pfFeasibleEdges, which additionally knows that an interface value built in place
+// from a concrete value (`return obj, ViolationError{…}`: go/ssa `make error <- ViolationError`) is
+// not the nil interface — an edge that brings such a value into a Phi known nil was not taken.
+func (p *Program) c19FeasibleEdges(b *ssa.BasicBlock, facts []Fact) []bool {
+	ok := p.pfFeasibleEdges(b, facts)
+	for _, f := range facts {
+		x, trueMeansNonNil, isTest := errNilTest(f.Cond)
+		if !isTest || f.Pol == trueMeansNonNil {
+			continue
+		}
+		q, isPhi := stripConv(x).(*ssa.Phi)
+		if !isPhi || q.Block() != b || len(q.Edges) != len(ok) {
+			continue
+		}
+		if _, isIface := q.Type().Underlying().(*types.Interface); !isIface {
+			continue
+		}
+		for i, e := range q.Edges {
+			if _, built := e.(*ssa.MakeInterface); built {
+				ok[i] = false
+			}
+		}
+	}
+	return ok
+}
+
+// c19Validation decides "this object has passed parser F without error" for an object that is
+// admitted somewhere (appended to the rendered set). The object need not be the variable F was
+// called on:
+//   - it may be a copy of it (`obj, err = parseObject(…)` once the normaliser merged parseObject into
+//     its caller: the helper's variable is loaded at each of its returns, the loads meet in a Phi and
+//     are stored into the caller's variable) — every value that can have been stored, on the ways
+//     into the join that the facts at the admission leave feasible, has to be validated where it
+//     was read;
+//   - it may be the result of a callee that was not merged: admitted under "the callee returned a nil
+//     error", it is validated if every return of the callee that can carry a nil error hands out an
+//     object that is validated at that return.
+type c19Validation struct {
+	p      *Program
+	parser *ssa.Function
+	notes  []string
+	why    []string
+}
+
+func (v *c19Validation) whyNot() string {
+	if len(v.why) == 0 {
+		return ""
+	}
+	return " (" + strings.Join(v.why, "; ") + ")"
+}
+
+// local: the content of local variable a, read at instruction `at` where `facts` hold, has been
+// validated.
+func (v *c19Validation) local(a *ssa.Alloc, at ssa.Instruction, facts []Fact, depth int) bool {
+	p := v.p
+	if depth > 6 {
+		return false
+	}
+	for _, pc := range callsIn(a.Parent()) {
+		pcall, isCall := pc.Instr.(*ssa.Call)
+		if !isCall || staticCallee(pc.Common) != v.parser || len(pc.Common.Args) < 1 {
+			continue
+		}
+		if pc.Common.Args[0] == ssa.Value(a) && p.errOfCallIsNil(facts, pcall) {
+			v.notes = append(v.notes, "err==nil of "+v.parser.Name()+" at "+p.IPos(pcall))
+			return true
+		}
+	}
+	// not validated in place: everything that can have been assigned to it must be
+	stores, _ := p.storesReaching(a, at)
+	complete := !p.mayHoldZero(a, at) && c19AssignedOnlyByStores(a)
+	if !complete || len(stores) == 0 {
+		v.why = append(v.why, fmt.Sprintf("the object comes from %s as read at %s, where no nil error of %s for it is established", p.describe(a), p.IPos(at), v.parser.Name()))
+		return false
+	}
+	for _, st := range stores {
+		fs := append(append([]Fact{}, facts...), p.FactsAt(st.Block())...)
+		if !v.value(st.Val, fs, depth+1) {
+			return false
+		}
+	}
+	return true
+}
+
+// c19AssignedOnlyByStores: the only ways local variable a gets a new value as a whole are the stores
+// to it. Methods called on the variable itself and accesses to its fields modify the object in place
+// (the labels merged into a parsed object); like the repository's own shape — validate, set labels,
+// append — that is not a new object. A variable whose address is stored, converted to an interface,
+// handed to a decoding function or written by a closure may be replaced behind the analysis' back.
+func c19AssignedOnlyByStores(a *ssa.Alloc) bool {
+	refs := a.Referrers()
+	if refs == nil {
+		return false
+	}
+	for _, ref := range *refs {
+		switch r := ref.(type) {
+		case *ssa.Store:
+			if r.Addr != ssa.Value(a) {
+				return false
+			}
+		case *ssa.UnOp, *ssa.DebugRef, *ssa.FieldAddr, *ssa.IndexAddr:
+		case *ssa.MakeClosure:
+			if !closureOnlyDeferred(r) && closureWrites(r, a) {
+				return false
+			}
+		case ssa.CallInstruction:
+			if callRecv(r.Common()) == ssa.Value(a) {
+				continue
+			}
+			if callMayWriteThroughArg(r.Common(), a) {
+				return false
+			}
+		default:
+			return false
+		}
+	}
+	return true
+}
+
+// value: x, as it is where `facts` hold, is a validated object.
+func (v *c19Validation) value(x ssa.Value, facts []Fact, depth int) bool {
+	p := v.p
+	if depth > 6 {
+		return false
+	}
+	switch y := x.(type) {
+	case *ssa.Phi:
+		blk := y.Block()
+		feasible := p.c19FeasibleEdges(blk, facts)
+		n := 0
+		for i, e := range y.Edges {
+			if i >= len(blk.Preds) || (i < len(feasible) && !feasible[i]) {
+				continue
+			}
+			n++
+			fs := append(append([]Fact{}, facts...), p.FactsOnEdge(blk.Preds[i], blk)...)
+			if !v.value(e, fs, depth+1) {
+				return false
+			}
+		}
+		return n > 0
+	case *ssa.UnOp:
+		if y.Op != token.MUL {
+			return false
+		}
+		a, isLocal := y.X.(*ssa.Alloc)
+		if !isLocal {
+			v.why = append(v.why, "it may be "+p.describe(x))
+			return false
+		}
+		return v.local(a, y, append(append([]Fact{}, facts...), p.FactsAt(y.Block())...), depth+1)
+	case *ssa.Extract:
+		call, isCall := y.Tuple.(*ssa.Call)
+		if !isCall {
+			return false
+		}
+		return v.result(call, y.Index, facts, depth)
+	case *ssa.Call:
+		return v.result(y, 0, facts, depth)
+	}
+	v.why = append(v.why, "it may be "+p.describe(x))
+	return false
+}
+
+// result: result #idx of a call whose error result the facts know to be nil. Every return of the
+// callee that can carry a nil error has to hand out a validated object.
+func (v *c19Validation) result(call *ssa.Call, idx int, facts []Fact, depth int) bool {
+	p := v.p
+	h := staticCallee(call.Common())
+	if h == nil || len(h.Blocks) == 0 || h == v.parser {
+		return false
+	}
+	if !p.errOfCallIsNil(facts, call) {
+		v.why = append(v.why, fmt.Sprintf("the result of %s at %s is used without its error being known nil", h.Name(), p.IPos(call)))
+		return false
+	}
+	res := h.Signature.Results()
+	errIdx := -1
+	for i := 0; i < res.Len(); i++ {
+		if res.At(i).Type().String() == "error" {
+			errIdx = i
+		}
+	}
+	if errIdx < 0 || idx >= res.Len() {
+		return false
+	}
+	n := 0
+	for _, rc := range p.pfReturnCases(h) { // without the synthetic recover block of a function with defer
+		if errIdx >= len(rc.Results) || idx >= len(rc.Results) || pfDeadByFacts(rc.Facts) {
+			continue
+		}
+		ev := rc.Results[errIdx]
+		if ev == nil {
+			ev = rc.Ret.Results[errIdx]
+		}
+		if _, built := ev.(*ssa.MakeInterface); built || definitelyNonNil(ev) || p.nilnessFromFacts(rc.Facts, ev) == noTri {
+			continue // this return reports an error: the caller does not admit its object
+		}
+		n++
+		rv := rc.Results[idx]
+		if rv == nil {
+			rv = rc.Ret.Results[idx]
+		}
+		// a return of a spilled variable is resolved to the stored value by returnCases; judge the
+		// returned expression as it stands in the return instruction when that is a load
+		if ld, isLoad := rc.Ret.Results[idx].(*ssa.UnOp); isLoad && ld.Op == token.MUL {
+			rv = ld
+		}
+		if !v.value(rv, rc.Facts, depth+1) {
+			v.why = append(v.why, fmt.Sprintf("%s can return at %s with a nil error and an object that has not passed %s", h.Name(), p.IPos(rc.Ret), v.parser.Name()))
+			return false
+		}
+	}
+	if n == 0 {
+		return false
+	}
+	v.notes = append(v.notes, "err==nil of "+h.Name()+" at "+p.IPos(call)+", whose error-free returns all follow a nil error of "+v.parser.Name())
+	return true
 }
 
 func c19CheckPanicValidateManifest(c *Ctx, o *Obligation, fn *ssa.Function, site ssa.Instruction) {
